@@ -117,6 +117,10 @@ def run(rep):
              'result, in the dictionary fetched BEFORE that call (an answer '
              'computed before a re-entrant changed() never lands in the live '
              'cache, so a later unsubscribe is not masked)', floor=2)
+    rep.rule('R07.9', 'cached subscriptions() answers follow declaration changes: '
+             '_uncached_subscriptions subscribes to the complete required tuple on '
+             'every exit and _subscribe subscribes to EVERY required specification '
+             'not yet recorded (shared with C05 INV-4)', floor=2)
     rep.decline('equality of the returned multiset with the net effect of an '
                 'arbitrary subscribe/unsubscribe history')
     rep.assume('resolution orders are those of C02/C03')
@@ -232,6 +236,11 @@ def run(rep):
                              'LookupBase.subscriptions', '_uncached_subscriptions',
                              '_scache', 'tuple', False, ['required', 'provided'])
     cside.fills(rep, cside.cu(rep), 'R07.8', only=('_subscriptions',))
+
+    # R07.9 specification edge of subscriptions()
+    from .C05 import subscribe_on_all_exits, subscribe_all_spec
+    subscribe_on_all_exits(rep, mod, 'R07.9', only=('_uncached_subscriptions',))
+    subscribe_all_spec(rep, mod, 'R07.9')
 
 
 def walk_body(stmts):
